@@ -131,10 +131,14 @@ where
     fn complete(&self, res: SingleflightResult<T, E>) {
         // write-lock
         #[cfg(feature = "verif")]
-        verif_hooks::point("sf.res.write");
+        verif_hooks::point_until("sf.res.write", || self.res.try_write().is_some());
         let mut val = self.res.write();
         *val = Some(res);
+        #[cfg(feature = "verif")]
+        verif_hooks::point("sf.complete.stored");
         self.nt.notify_waiters();
+        #[cfg(feature = "verif")]
+        verif_hooks::point("sf.complete.notified");
         let num_waiters = self.num_waiters.load(Ordering::SeqCst);
         debug!("Completed Call with: {} waiters", num_waiters);
     }
@@ -144,7 +148,7 @@ where
     fn get_future(&self) -> impl Future<Output = SingleflightResult<T, E>> + '_ {
         // read-lock
         #[cfg(feature = "verif")]
-        verif_hooks::point("sf.res.read");
+        verif_hooks::point_until("sf.res.read", || self.res.try_read().is_some());
         let res = self.res.read();
         if let Some(result) = res.clone() {
             // we already have the result, provide it back to the caller.
@@ -154,6 +158,8 @@ where
             // no result yet, we are a waiter task.
             self.num_waiters.fetch_add(1, Ordering::SeqCst);
             debug!("Adding to Call's Notify");
+            #[cfg(feature = "verif")]
+            verif_hooks::point("sf.before.notified");
 
             // Note that the `notified()` needs to be performed outside of the async
             // block since we need to register our waiting within this read-lock
@@ -170,7 +176,7 @@ where
     /// If not set, then [SingleflightError::NoResult] is returned
     fn get(&self) -> SingleflightResult<T, E> {
         #[cfg(feature = "verif")]
-        verif_hooks::point("sf.res.read2");
+        verif_hooks::point_until("sf.res.read2", || self.res.try_read().is_some());
         let res = self.res.read();
         res.clone().unwrap_or(Err(SingleflightError::NoResult))
     }
